@@ -31,6 +31,10 @@ from . import rng as _rng
 VERIF = os.path.dirname(os.path.dirname(os.path.dirname(os.path.abspath(__file__))))
 
 
+# mutant / seeded-change runs must not overwrite the evidence or replays of /repo
+OUT = os.environ.get("VERIF_OUT_DIR") or VERIF
+
+
 class HarnessError(Exception):
   pass
 
@@ -278,7 +282,7 @@ def run_check(engine_name, tier, verif_seed, budget_override=None, runs_override
     case = r["case"]
     small, nexec = shrink_case(eng, engine_name, case, v,
                                budget_s=60 if tier == "quick" else 180)
-    rp = os.path.join(VERIF, "replays", "%s-%d-%d-%s.json" % (eng.ID, verif_seed, r["i"], v["check"]))
+    rp = os.path.join(OUT, "replays", "%s-%d-%d-%s.json" % (eng.ID, verif_seed, r["i"], v["check"]))
     os.makedirs(os.path.dirname(rp), exist_ok=True)
     doc = {"property": eng.ID, "engine": engine_name, "verif_seed": verif_seed,
            "run_index": r["i"], "run_seed": r["seed"], "case": small,
@@ -341,8 +345,8 @@ def run_check(engine_name, tier, verif_seed, budget_override=None, runs_override
     }
     if hasattr(eng, "evidence_extra"):
       eng.evidence_extra(ev, agg)
-    os.makedirs(os.path.join(VERIF, "evidence"), exist_ok=True)
-    with open(os.path.join(VERIF, "evidence", eng.ID + ".json"), "w") as f:
+    os.makedirs(os.path.join(OUT, "evidence"), exist_ok=True)
+    with open(os.path.join(OUT, "evidence", eng.ID + ".json"), "w") as f:
       json.dump(ev, f, indent=1, sort_keys=True, default=str)
 
   # ---- report
